@@ -61,7 +61,7 @@ def c10_extent(lens, req):
     total = sum(2 + l for l in lens)
     o = ['#include "vp.h"', '#include "avtp/acf/custom/Vss.h"']
     sl = sum(lens)
-    o.append('typedef struct { uint8_t bytes[%d]; uint8_t packed0[%d]; uint8_t out0[%d]; } vp_in_t;' % (max(sl, 1), max(total, 1), max(sl, 1) + 8))
+    o.append('typedef struct { uint8_t bytes[%d]; uint8_t packed0[%d]; uint8_t out0[%d]; uint16_t stale[%d]; } vp_in_t;' % (max(sl, 1), max(total, 1), max(sl, 1) + 8, max(req, 1)))
     o.append('void harness(void) {')
     o.append('  VP_INPUT(vp_in_t, in);')
     o.append('  VssDataString_t src[%d]; VssDataString_t *srcp[%d];' % (max(S, 1), max(S, 1)))
@@ -94,11 +94,13 @@ def c10_extent(lens, req):
     off = 0
     for i in range(req):
         l = lens[i] if i < S else 0
-        o.append('  dst[%d].data = (char *)vp_obj_from(in.out0 + %d, %d);' % (i, off, l))
+        # the length field of a (re-used) descriptor may hold anything when the data phase starts
+        o.append('  dst[%d].data = (char *)vp_obj_from(in.out0 + %d, %d); dst[%d].data_length = in.stale[%d];' % (i, off, l, i, i))
         off += l
     o.append('  Avtp_Vss_DeserializeStringArray(&arr, dstp, %d);' % req)
     off = 0
     for i in range(min(req, S)):
+        o.append('  VP_ASSERT(dst[%d].data_length == %d, "C10 data phase reports each string length whatever the descriptor held before");' % (i, lens[i]))
         if lens[i]:
             o.append('  VP_ASSERT(vp_bytes_eq((uint8_t *)dst[%d].data, (uint8_t *)src[%d].data, %d), "C10 unpacking into exact-extent destinations returns the original bytes");' % (i, i, lens[i]))
     o.append('  VP_REACH("c10 extent end");')
